@@ -18,7 +18,7 @@ theorem sim_prepare {s : Impl} {r : Ref} (c : Cfg) (h : Sim s r) (th : Nat)
   have hf := abs_fields h
   have hstack : r.stack = [] := all2_nil_left (hr ▸ h.revs)
   simp only [Ref.step, Impl.prepare]
-  refine ⟨⟨h.cinv.objs, h.cinv.nodup, h.cinv.store⟩, h.entries, ?_, rfl, h.nextRev, h.touched, h.tc, h.nodup, ?_, ?_, ?_, ?_, h.sticky, ?_, h.cnt, h.ook⟩
+  refine ⟨⟨h.cinv.objs, h.cinv.nodup, h.cinv.store⟩, h.entries, ?_, rfl, h.nextRev, h.touched, h.tc, h.nodup, ?_, ?_, ?_, ?_, ?_, h.cnt, h.ook⟩
   · simp only [absI, absR, AW.mk.injEq]
     exact ⟨hf.1, hf.2.1, funext hf.2.2.1, hf.2.2.2.1, trivial, trivial⟩
   · show All2 _ s.revisions r.stack
@@ -37,7 +37,7 @@ theorem sim_reset {s : Impl} {r : Ref} (c : Cfg) (h : Sim s r) (he : s.journal.e
     rw [he] at this; simp at this
   simp only [Ref.step, Impl.reset, Impl.init]
   refine ⟨⟨by intro a o ha; simp at ha, by simp [akeys], h.cinv.store⟩, by intro e he; simp [Journal.new] at he, ?_, rfl, rfl,
-    by intro a; simp [Journal.new], ?_, h.nodup, trivial, by intro x hx; simp at hx, by simp, by simp, rfl,
+    by intro a; simp [Journal.new], ?_, h.nodup, trivial, by intro x hx; simp at hx, by simp, by simp,
     by simp [Journal.new, JOK], JCnt.new, by simp [Journal.new, OOK]⟩
   · simp only [absI, absR, AW.mk.injEq]
     refine ⟨?_, trivial, by funext h'; simp, by simp, trivial, trivial⟩
@@ -250,8 +250,7 @@ theorem sim_step (c : Cfg) {s : Impl} {r : Ref} (h : Sim s r) (op : Op) (hsafe :
   | createAccount a =>
     obtain ⟨s', hs⟩ := createAccount_total s a
     simp only [Impl.step, orPanic, hs]
-    simp only [Impl.guard, Bool.or_eq_true, Bool.not_eq_true'] at hgd
-    exact ⟨by simp [Ref.step], fun _ => sim_createAccount c h a hgd hs⟩
+    exact ⟨by simp [Ref.step], fun _ => sim_createAccount c h a hs⟩
   | subBalance a n =>
     simp only [Impl.step, orPanic]
     cases hs : s.subBalance a n with
@@ -263,12 +262,7 @@ theorem sim_step (c : Cfg) {s : Impl} {r : Ref} (h : Sim s r) (op : Op) (hsafe :
   | addBalance a n =>
     obtain ⟨s', hs⟩ := addBalance_total c s a n
     simp only [Impl.step, orPanic, hs]
-    · simp only [Impl.guard, Bool.not_eq_true', Bool.and_eq_false_iff, beq_eq_false_iff_ne, ne_eq] at hgd
-      have hgd' : ¬ (n = 0 ∧ a = c.ripemd) := by
-        intro hh; rcases hgd with h1 | h1
-        · exact h1 hh.1
-        · exact h1 hh.2
-      refine ⟨?_, fun _ => sim_addBalance c h a n hgd' hs⟩
+    · refine ⟨?_, fun _ => sim_addBalance c h a n hs⟩
       simp only [Ref.step]
       split <;> (try split) <;> rfl
   | getBalance a =>
@@ -451,7 +445,7 @@ theorem sim_step (c : Cfg) {s : Impl} {r : Ref} (h : Sim s r) (op : Op) (hsafe :
     subst hb
     have hf := sim_finalise c h hgd.2
     simp only [Impl.step, hf.1]
-    exact ⟨by simp [Ref.step], fun _ => hf.2⟩
+    exact ⟨by simp [Ref.step], fun _ => hf.2.1⟩
   | reset =>
     simp only [Impl.step]
     simp only [Impl.guard, List.isEmpty_iff] at hgd
